@@ -752,6 +752,11 @@ CORPUS = [
     {"k": "uebunpack", "x": hx(b"size:1:5,size:1:6,")},
     {"k": "uebunpack", "x": hx(b"k:-5:XY,:0:,")},
     {"k": "uebunpack", "x": hx(b"codec_name:3:crs,size:2:12,")},
+    {"k": "uebunpack", "x": hx(b"codec_name:3:crs,size:2:12,x")},
+    {"k": "uebunpack", "x": hx(b"codec_name:3:crs,size:2:12,tail_codec_pa")},
+    {"k": "uebunpack", "x": hx(b"cod")},
+    {"k": "b62dec", "x": hx(b"000")},
+    {"k": "b62dec", "x": hx(b"07tQLFHz")},
     {"k": "uebunpack", "x": hx(b"size:2:12,codec_name:3:crs,")},
     {"k": "leasecycle", "fmt": "imm", "ser": "v2", "o": 1, "r": "11" * 32, "c": "22" * 32, "e": 1000, "n": "33" * 20,
      "renews": [2000, 3000]},
@@ -804,6 +809,8 @@ def gen_base62(rng, n):
         cs.append({"k": "b62dec", "x": hx(enc)})
         for _ in range(3):
             cs.append({"k": "b62dec", "x": hx(mutate(rng, enc, B62))})
+        # a small digit in front: same value, often an impossible length
+        cs.append({"k": "b62dec", "x": hx(rng.choice([b"0", b"0", b"1", b"00"]) + enc)})
         r = bytes(rng.choice(B62 + b"zzzz") for _ in range(rng.randrange(0, 14)))
         cs.append({"k": "b62dec", "x": hx(r)})
         cs.append({"k": "b62decl", "x": hx(rng.choice([enc, r])), "bits": rng.choice([0, 1, 7, 8, 9, 16, 17, 8 * ln, rng.randrange(0, 300)])})
@@ -922,6 +929,12 @@ def gen_ueb(rng, n):
                 m = b"".join(k + b":%d:%s," % (len(ents[k]), ents[k]) for k in o2)
             elif r < 0.7:    # negative length tricks
                 m = packed + b"k:-%d:XY,:0:," % rng.choice([1, 2, 5, 6, 20])
+            elif r < 0.78:   # trailing bytes without ':' after the last entry / cut inside a key name
+                if rng.random() < 0.5:
+                    m = packed + rng.choice([b"x", b"\x00", b",", b"size", b"tail_codec_pa", bytes([rng.randrange(256)])]).replace(b":", b";")
+                else:
+                    k0 = rng.choice(order)
+                    m = packed + k0[:rng.randrange(0, len(k0) + 1)]
             else:
                 m = mutate(rng, packed, b"0123456789:,")
             cs.append({"k": "uebunpack", "x": hx(m)})
